@@ -131,6 +131,7 @@ def run_one(case, acc):
             return
         acc.hit("run_ended")
         acc.sig(h({"sig": oracles.sig_of_trace(tr), "f": case["faults"], "st": case["store"]}))
+        derived = term is None
         if term is None:
             # the terminal event never reached the innermost adapter (store fault on its way): read it off the exit tick's commands
             xt = next(t for t in tr.ticks if t["exit"])
@@ -143,6 +144,11 @@ def run_one(case, acc):
             acc.violation({"mech": "handler_record_missing"}, "handler row not found after the run", wit)
             return
         if hv["status"] != want:
+            if derived and case["cancel_at"] is not None and out.get("cancel") == "cancelled" and hv["status"] == "cancelled":
+                # the user's cancel killed the control loop while it was still publishing its own terminal event (never observable):
+                # 'cancelled' is the outcome the service reported and the only one anybody saw
+                acc.note("cancel_killed_loop_before_its_terminal_event_was_published")
+                return
             if exempt:
                 acc.note("status_wrong_after_over_budget_store_failure")
                 return
